@@ -13,6 +13,12 @@ Line-protocol handler for property C11.
 * cond: `t` | `f` | `h <byte>` | `nr <n>` | `fnr <n>` | `nrge <n>` | `nrmod <n> <k>` | `not <cond>` | `veq <v> <hex>` | `and <cond> <cond>`
 
 answer: `ok|err <status> <event>*` with events `E:tag:nr:fnr:filename:line:nf:v0,v1,v2`, `G:form:ret`, `P:line`, `X:kind[:value]`
+
+`runv <fuel> I <n> (<hex name> <hex value>)*n A …` (the rest as for `run`): one execution whose `Config.Vars` are the given
+pairs, applied in order through `setVarByName` before BEGIN (as `setExecuteConfig` does). The answer is prefixed with
+`o:<r>:<g>:<m> ` — what the execution left open when it ended: `r` range rules whose flag is set, `g` getline streams with
+unread records, `m` = 1 when the main input has unread records in the current file (the histories stream of the harness prints
+that as its distribution; nothing of it may be visible to the next execution of the same interpreter).
 -/
 namespace GoawkModel.Drv.C11
 open GoawkModel GoawkModel.C11
@@ -190,9 +196,37 @@ def showEvent : Event → String
   | .ctl k none => s!"X:{k}"
   | .ctl k (some n) => s!"X:{k}:{n}"
 
-def handleRun (t : Toks) : Option String := do
+def pPairs : Nat → Toks → Option (List (Bytes × Bytes) × Toks)
+  | 0, t => some ([], t)
+  | n + 1, t => do
+    let (k, t) ← pHex t
+    let (v, t) ← pHex t
+    let (rest, t) ← pPairs n t
+    pure ((k, v) :: rest, t)
+
+/-- range rules left open at the end of a run: the last logged evaluation of the rule selected the record and its end
+pattern did not hold (`visits` is newest first) -/
+def openRanges (rules : List Rule) (visits : List Visit) : Nat :=
+  ((List.range rules.length).filter fun i =>
+    match visits.find? (fun v => v.rule == i) with
+    | some v => v.matched && !v.e
+    | none => false).length
+
+def openSummary (rules : List Rule) (s : St) : String :=
+  let g := (s.streams.filter fun p => !p.2.isEmpty).length
+  let m := match s.cur with
+    | some (_ :: _) => 1
+    | _ => 0
+  s!"o:{openRanges rules s.visits}:{g}:{m}"
+
+def handleRun (withVars : Bool) (t : Toks) : Option String := do
   let fuel0 := t.length + 1
   let (fuel, t) ← pNat t
+  let (pairs, t) ← (if withVars then do
+      let t ← expect "I" t
+      let (n, t) ← pNat t
+      pPairs n t
+    else some ([], t))
   let t ← expect "A" t
   let (args, t) ← pList t
   let t ← expect "S" t
@@ -215,14 +249,17 @@ def handleRun (t : Toks) : Option String := do
       pure (some os, r)
     | _ => none)
   if t ≠ [] then none else
-  let s0 : St := { fs := files, stdin := stdin, argv := [] :: args, argc := args.length + 1, varNames := names }
+  let s00 : St := { fs := files, stdin := stdin, argv := [] :: args, argc := args.length + 1, varNames := names }
+  let s0 := pairs.foldl (fun s kv => s.setVarByName kv.1 kv.2) s00
   let (ok, s) := run fuel ⟨begin, rules, end_⟩ s0
   let evs := s.out.reverse.map showEvent
-  pure (String.intercalate " " ((if ok then "ok" else "err") :: toString s.status :: evs))
+  let pre := if withVars then [openSummary rules s] else []
+  pure (String.intercalate " " (pre ++ (if ok then "ok" else "err") :: toString s.status :: evs))
 
 def handle (args : List String) : String :=
   match args with
-  | "run" :: t => (handleRun t).getD "bad-request"
+  | "run" :: t => (handleRun false t).getD "bad-request"
+  | "runv" :: t => (handleRun true t).getD "bad-request"
   | _ => "bad-request"
 
 end GoawkModel.Drv.C11
